@@ -270,7 +270,39 @@ func isCompleteSnapshotImage(ssfp string,
 	if err != nil {
 		return false, err
 	}
-	return bytes.Equal(checksum, ss.Checksum), nil
+	if !bytes.Equal(checksum, ss.Checksum) {
+		return false, nil
+	}
+	// the payload checksum above is calculated from the per block checksums
+	// recorded in the file, it doesn't cover the data blocks themselves.
+	return validateSnapshotFile(ssfp, fs)
+}
+
+// validateSnapshotFile reads the specified snapshot file and checks each of
+// its blocks against the recorded block checksum.
+func validateSnapshotFile(fp string, fs vfs.IFS) (valid bool, err error) {
+	f, err := fs.Open(fp)
+	if err != nil {
+		return false, err
+	}
+	defer func() {
+		err = firstError(err, f.Close())
+	}()
+	v := rsm.NewSnapshotValidator()
+	buf := make([]byte, settings.SnapshotChunkSize)
+	for chunkID := uint64(0); ; chunkID++ {
+		n, err := io.ReadFull(f, buf)
+		if n > 0 && !v.AddChunk(buf[:n], chunkID) {
+			return false, nil
+		}
+		if err == io.EOF || err == io.ErrUnexpectedEOF {
+			break
+		}
+		if err != nil {
+			return false, err
+		}
+	}
+	return v.Validate(), nil
 }
 
 func getSnapshotFilepath(dir string, fs vfs.IFS) (string, error) {
